@@ -100,7 +100,8 @@ def handle (j : J) : J :=
     .obj [
       ("acyclic", .bool (acyclic doc.frags)),
       ("fuel", J.ofNat fuel),
-      ("spec", .arr (doc.ops.map fun op => J.ofNat (DepthSpec.depth doc vars op))),
+      -- the specification is only well defined (and only cheap: it explores every branch down to the fuel) on acyclic documents
+      ("spec", .arr (if acyclic doc.frags then doc.ops.map fun op => J.ofNat (DepthSpec.depth doc vars op) else [])),
       ("rule", .arr (grid.map fun (f, l) => resJ (rule fuel l f doc vars))),
       ("rulev", .arr (grid.map fun (f, l) => resJ (ruleV fuel l f doc (varDefsOfJson (j.getD "doc")) vars))),
       ("ruler", .arr (grid.map fun (f, l) => resJ (ruleR fuel l f doc (varDefsROfJson (j.getD "doc")) (rawVarsOfJson (j.getD "raw"))))),
@@ -122,7 +123,10 @@ def handle (j : J) : J :=
       ("orig", .arr (grid.map fun (f, l) => resJ (ruleOrig fuel l f doc vars))),
       ("paths", .arr (doc.ops.map fun op => .arr (op.sels.filterMap fun s =>
         match s with
-        | .field _ _ _ sub => some (.arr (maxdepths.map fun md => pathsJ (selectedFields fuel sub doc.frags vars md (fun _ => true) [])))
+        | .field _ _ _ sub => some (.arr (maxdepths.map fun md => pathsJ (
+            if PyGql.Generated.DepthVariant.lenientSelectedFields
+            then selectedFieldsG skipSelectionT fuel sub doc.frags vars md (fun _ => true) []
+            else selectedFields fuel sub doc.frags vars md (fun _ => true) [])))
         | _ => none))),
       ("pathsOrig", .arr (doc.ops.map fun op => .arr (op.sels.filterMap fun s =>
         match s with
